@@ -19,6 +19,7 @@ type LexGenOpts struct {
 	MaxIgn          int
 	MaxRegS1        int
 	AllowS2         bool // one arbitrary regdef used once at the start of a token alternative
+	FreeRegdefs     bool // arbitrary (acyclic, possibly nullable, multiply used) regular definitions: the full macro semantics
 	AllowDot        bool
 	StrLits         int  // up to this many string literals in a small syntax part
 	NoNullableRep   bool // never put a nullable body inside { } or [ ] (finding F2)
@@ -234,6 +235,15 @@ func GenLexGrammar(r *rand.Rand, o LexGenOpts) *Grammar {
 		out.Lex = append(out.Lex, LexDef{Kind: DReg, Name: name, Pat: p})
 		g.s1 = append(g.s1, name)
 	}
+	if o.FreeRegdefs {
+		for i, n := 0, r.Intn(4); i < n; i++ {
+			name := fmt.Sprintf("_m%d", i)
+			p := g.pattern(1, r.Intn(4) == 0)
+			g.defs[name] = p
+			out.Lex = append(out.Lex, LexDef{Kind: DReg, Name: name, Pat: p})
+			g.s1 = append(g.s1, name) // later patterns (and later definitions) may use it anywhere, any number of times
+		}
+	}
 	ntok := 1 + r.Intn(o.MaxToks)
 	nign := 0
 	if o.MaxIgn > 0 {
@@ -255,7 +265,16 @@ func GenLexGrammar(r *rand.Rand, o LexGenOpts) *Grammar {
 	var lexemes []string // sampled lexemes, used to derive overlapping patterns / string literals
 	for _, s := range slots {
 		var p *Pattern
-		switch k := r.Intn(10); {
+		switch k := r.Intn(12); {
+		case k == 11:
+			// many single-character alternatives in shuffled order: one state with many classes
+			n := 12 + r.Intn(14)
+			base := []rune{'b', 'A', '0', 0x3b1}[r.Intn(4)]
+			perm := r.Perm(n)
+			p = &Pattern{}
+			for _, k := range perm {
+				p.Alts = append(p.Alts, Alt{Terms: []Term{Lit(base + rune(k)), Lit(g.rune1())}})
+			}
 		case k < 2 && len(lexemes) > 0:
 			// a pattern that is a prefix / extension of an earlier lexeme (overlap on purpose)
 			base := []rune(lexemes[r.Intn(len(lexemes))])
